@@ -74,6 +74,18 @@ SchemaOf(s) ==
                           ELSE [i \in DOMAIN s.sel |-> [name |-> NameOf(s.sel[i]), kind |-> KindOf(s.sel[i])]]
       [] OTHER -> <<>>
 
+(* As-is model of forml's Source.schema, used ONLY to recognise the known finding "schema-duplicate-output-names": *)
+(* the implementation keeps the fields in a mapping keyed by name, so of several outputs with one name only the     *)
+(* first position and the last kind survive.  Never used as the requirement.                                       *)
+SameKey(sch, i, j) == i = j \/ (sch[i].name # "" /\ sch[i].name = sch[j].name)
+Collapse(sch) ==
+    LET firsts == {i \in DOMAIN sch : \A j \in 1..(i - 1) : ~SameKey(sch, i, j)}
+        lastOf(i) == CHOOSE j \in DOMAIN sch : SameKey(sch, i, j) /\ \A k \in DOMAIN sch : SameKey(sch, i, k) => k <= j
+        RECURSIVE Sorted(_)
+        Sorted(S) == IF S = {} THEN <<>> ELSE LET m == MinOf(S) IN <<m>> \o Sorted(S \ {m})
+        order == Sorted(firsts)
+    IN [n \in DOMAIN order |-> sch[lastOf(order[n])]]
+
 \* elements (columns of tables / references) a feature is composed of
 Elems(x) == IF x.f = "col" THEN {x} ELSE UNION {Elems(x.args[i]) : i \in DOMAIN x.args}
 HasAgg(x) == x.f = "agg" \/ \E i \in DOMAIN x.args : HasAgg(x.args[i])
